@@ -1,0 +1,46 @@
+//go:build verif
+
+package executor
+
+// Add-only verification shim for the schedule-quantified properties (C07, C18).
+// Thin accessors to unexported state of the flush protocol; no behaviour change: nothing here is
+// called by marketstore itself, and the file is compiled only with -tags verif.
+
+// VerifHFlushLen returns len(flushChannel) — the value RequestFlush reads at wal.go:795.
+func VerifHFlushLen(wf *WALFileType) int { return len(wf.txnPipe.flushChannel) }
+
+// VerifHWriteLen returns len(writeChannel) — the value FlushToWAL reads at wal.go:234.
+func VerifHWriteLen(wf *WALFileType) int { return len(wf.txnPipe.writeChannel) }
+
+// VerifHPutToken queues a flush token exactly as RequestFlush does at wal.go:798-799 and returns
+// it without waiting on it (the caller plays the part of a writer blocked at wal.go:800).
+func VerifHPutToken(wf *WALFileType) chan struct{} {
+	f := make(chan struct{})
+	wf.txnPipe.flushChannel <- f
+	return f
+}
+
+// VerifHTakeToken receives one queued flush token without blocking — the receive of the select arm
+// at wal.go:735 when driven from outside the SyncWAL goroutine.
+func VerifHTakeToken(wf *WALFileType) (chan struct{}, bool) {
+	select {
+	case f := <-wf.txnPipe.flushChannel:
+		return f, true
+	default:
+		return nil, false
+	}
+}
+
+// VerifHSetHave sets the package variable haveWALWriter (wal.go:712) and returns the old value.
+func VerifHSetHave(b bool) bool {
+	old := haveWALWriter
+	haveWALWriter = b
+	return old
+}
+
+// VerifHGetHave reads haveWALWriter.
+func VerifHGetHave() bool { return haveWALWriter }
+
+// VerifHSetShutdownPending sets *shutdownPending, the first statement of Shutdown (wal.go:804),
+// without the waiting that follows it.
+func VerifHSetShutdownPending(wf *WALFileType, b bool) { *wf.shutdownPending = b }
